@@ -16,9 +16,14 @@ from concurrent.futures import ThreadPoolExecutor
 
 from harness import core, tlc
 
+# TLC evaluates the (lazily nested) compile states of larger templates recursively: give its threads room
+if "-Xss" not in os.environ.get("JAVA_TOOL_OPTIONS", ""):
+    os.environ["JAVA_TOOL_OPTIONS"] = (os.environ.get("JAVA_TOOL_OPTIONS", "") + " -Xss64m").strip()
+
 MC_CFG = """SPECIFICATION Spec
 CONSTANTS
 %(consts)s
+  Quick = %(quick)s
   Families = {%(fams)s}
   CtxIds = {%(ctxs)s}
   EscLen = %(esclen)d
@@ -39,7 +44,7 @@ CHECK_DEADLOCK FALSE
 
 TIERS = {
     "quick": dict(parts=[["expr", "void", "deep"], ["one0"], ["one1"], ["one2"], ["nestq0"], ["nestq1"], ["nestq2"],
-                         ["metal0"], ["metal1"]], ctxs=["A"]),
+                         ["metal0"]], ctxs=["A"]),
     "thorough": dict(parts=[["expr", "void", "deep"], ["one0"], ["one1"], ["one2"], ["nest0"], ["nest1"], ["nest2"],
                             ["metal0"], ["metal1"]], ctxs=["A", "B"]),
 }
@@ -53,10 +58,11 @@ def known_flag(chk, clause):
     return any((f.get("match") or {}).get("clause") == clause for f in chk.known)
 
 
-def model_check(chk, parts, ctxs, invs, consts_text, esclen=2, timeout=3000):
+def model_check(chk, parts, ctxs, invs, consts_text, esclen=2, timeout=3000, quick=None):
     """One TLC process (1 worker: TLC's string table is a global lock) per family part, in parallel.
     -> (cases, contexts, totals)"""
     known = "TRUE" if known_flag(chk, "RepeatOverMapping") else "FALSE"
+    quick = (chk.tier == "quick") if quick is None else quick
     jobs = []
     for i, fams in enumerate(parts):
         for cx in ctxs:
@@ -65,7 +71,7 @@ def model_check(chk, parts, ctxs, invs, consts_text, esclen=2, timeout=3000):
     def one(job):
         i, fams, cx = job
         cfg = MC_CFG % dict(consts=consts_text, fams=", ".join('"%s"' % f for f in fams), ctxs='"%s"' % cx, esclen=esclen,
-                            known=known, invs="\n".join("INVARIANT " + x for x in invs))
+                            quick="TRUE" if quick else "FALSE", known=known, invs="\n".join("INVARIANT " + x for x in invs))
         sd = tlc.new_scratch("c17cases")
         cf = os.path.join(sd, "cases.json")
         try:
